@@ -282,7 +282,11 @@ func negotiateFeatures(ctx context.Context, s *Session, first, ws bool, features
 		}
 		s.in.d = oldDecoder
 		if err == nil {
-			s.state |= mask
+			// Whether the session is ready is decided when the whole step has
+			// succeeded (by negotiateSession, from the mask that is returned): a
+			// feature that reports Ready followed by a feature of the same list
+			// that fails must not leave a ready session behind.
+			s.state |= mask &^ Ready
 		}
 		s.negotiated[data.feature.Name.Space] = struct{}{}
 
